@@ -91,7 +91,9 @@ func ovlDispatcherState(gs []ovlGoroutine, onlyAfter int) (desc string, blocked 
 			blocked = true
 		}
 		// several dispatchers (one per agent) exist in the process: report the one that is blocked below dispatchRequests first
-		if blocked && idx > 0 {
+		if blocked && (idx > 0 || g.State != "select") {
+			// blocked in a frame below dispatchRequests, or in dispatchRequests itself on something
+			// other than its idle select (e.g. a send on a nil response channel)
 			return g.State, true, where, g.Raw
 		}
 		desc, raw = g.State, g.Raw
@@ -110,6 +112,7 @@ type c10Cfg struct {
 	Frontend bool
 	DelayUpd time.Duration
 	DelayAut time.Duration
+	Policy   bool // a password policy that the upgradeable users' passwords fail: every login-triggered upgrade fails
 }
 
 var c10Pids []string
@@ -153,7 +156,7 @@ func TestVerifC10(t *testing.T) {
 			m = "local"
 		}
 		cfgs = append(cfgs, c10Cfg{Name: fmt.Sprintf("cfg%d-%s", i, m), Mode: m, Clients: []int{4, 16, 40, 64}[rng.Intn(4)], Requests: nreq,
-			Hooks: i%2 == 0, Frontend: i%3 == 0, DelayUpd: time.Duration(rng.Intn(4)) * time.Millisecond, DelayAut: time.Duration(rng.Intn(2)) * 200 * time.Microsecond})
+			Hooks: i%2 == 0, Frontend: i%3 == 0, Policy: m == "local" && i%2 == 1, DelayUpd: time.Duration(rng.Intn(4)) * time.Millisecond, DelayAut: time.Duration(rng.Intn(2)) * 200 * time.Microsecond})
 	}
 	occ := map[string]int{}
 	for _, c := range cfgs {
@@ -236,7 +239,11 @@ func c10Run(R *vr.Result, rng *rand.Rand, c c10Cfg, occ map[string]int) {
 	verifSetDelay("exec.update", c.DelayUpd)
 	verifSetDelay("exec.authenticate", c.DelayAut)
 	verifSetLogging(true)
-	s, err := NewStore(st.Cfg, mode, "", "", hooksDir)
+	ptype, pcond := "", ""
+	if c.Policy {
+		ptype, pcond = "zxcvbn", "score >= 4"
+	}
+	s, err := NewStore(st.Cfg, mode, ptype, pcond, hooksDir)
 	if err != nil {
 		R.Fatal = "NewStore: " + err.Error()
 		return
